@@ -87,6 +87,15 @@ def check_cli_fill(res, year, out, typed, label, rp, hx, pdfspec, pdfdrive):
             res.violation(f'C19|{year}|cli-fill-raises|{type(r.exc).__name__}', f'{label}: fill-pdfs raised {type(r.exc).__name__}: {str(r.exc)[:120]}', rp)
         return
     fm = hx.form_map(year)
+    # the forms the command fills are the forms of the solved return that need filing (numbered / named copies included)
+    exp = expected_filing(year, typed, [s_ for s_ in sol.sections() if s_ != 'habutax'], hx, pdfspec)
+    got = [os.path.basename(c['argv'][c['argv'].index('output') + 1])[:-4] for c in r.calls if c['op'] == 'fill_form']
+    res.count('cli_filing_sets_checked')
+    if sorted(got) != sorted(e[2] for e in exp):
+        extra = sorted(set(got) - {e[2] for e in exp})
+        missing = sorted({e[2] for e in exp} - set(got))
+        res.violation(f'C19|{year}|cli-filing-set|{"+".join(x.split(":")[0] for x in extra + missing)}',
+                      f'{label}: `fill-pdfs` filled {sorted(got)}; the forms of the solved return that need filing are {sorted(e[2] for e in exp)} (extra {extra}, missing {missing})', rp)
     for c in r.calls:
         if c['op'] != 'fill_form':
             continue
